@@ -96,7 +96,13 @@ pub enum Op {
   /// `generate_method(.., fragment, scope)`; scope 0 = VerificationMethod, 1..=5 = relationship.
   Generate { frag: Frag, scope: u8 },
   /// `purge_method(id)`; `Some(i)` = index into the current list of method fragments, `None` = absent id.
-  Purge { target: Option<u16> },
+  /// `variant`: 0 = the method's exact id, 1 = the same DID and fragment with a query (`?versionId=1`), 2 = with a
+  /// path (`/p`) — ids that name no method of the document although a fragment query would match one.
+  Purge {
+    target: Option<u16>,
+    #[serde(default)]
+    variant: u8,
+  },
 }
 
 #[derive(Debug, Clone, Serialize, Deserialize)]
@@ -479,12 +485,17 @@ fn run_history<D: TestDoc>(case: &Case) -> Result<Trace, Viol> {
         };
         (StepKind::Generate { scope: *scope % 6, fragment, colliding }, outcome)
       }
-      Op::Purge { target } => {
+      Op::Purge { target, variant } => {
         let fragment = match target {
           Some(i) if !fragments.is_empty() => fragments[pick(*i, fragments.len())].clone(),
           _ => "absent".to_string(),
         };
-        let id = fixture!(DIDUrl::parse(format!("{}#{fragment}", D::DID)), "purge id");
+        let suffix = match variant % 3 {
+          0 => "",
+          1 => "?versionId=1",
+          _ => "/p",
+        };
+        let id = fixture!(DIDUrl::parse(format!("{}{suffix}#{fragment}", D::DID)), "purge id");
         let digest = digest_hex(doc.core(), &id);
         ctl.arm();
         let r = catch(|| block_on(doc.purge_method(&storage, &id)));
@@ -707,6 +718,14 @@ fn judge_step(step: &Step, obs: &mut Obs) -> CheckResult {
       if let Some(k) = key_id {
         vensure!(obs, !post.keys.contains(k), "purge-ok-key-remains", "{path}: Ok but key {k} still exists");
       }
+      // Whatever id spelling was used: a key or key id that disappeared must belong to a method that disappeared too
+      // (an Ok that deletes the key of a method which stays in the document leaves it without a usable key).
+      vensure!(
+        obs,
+        (k_lost.is_empty() && i_lost.is_empty()) || !m_lost.is_empty(),
+        "purge-ok-key-removed-but-method-remains",
+        "{path}: Ok for {id}: keys -{k_lost:?}, key ids -{i_lost:?} were deleted but no method left the document"
+      );
       // Frame: only the target, the references to it, its key and its key id went away.
       let frame_ok = m_new.is_empty()
         && m_lost.iter().all(|m| &m.0 == id)
@@ -726,6 +745,9 @@ fn judge_step(step: &Step, obs: &mut Obs) -> CheckResult {
       );
     }
     (StepKind::Purge { id, .. }, Outcome::Err { text, .. }) => {
+      if id.contains('?') || id.contains("/p#") {
+        obs.label("purge-id-with-path-or-query-refused");
+      }
       if injected == 0 && target_present {
         obs.label("purge-natural-storage-error");
       }
@@ -889,13 +911,19 @@ fn purge_shapes() -> Vec<Case> {
           methods.push(bm(0, 0b00101));
           methods.push(bm(3, 0));
         }
-        v.push(shape(doc, methods, extras, vec![Op::Purge { target: Some(0) }]));
+        v.push(shape(doc, methods, extras, vec![Op::Purge { target: Some(0), variant: 0 }]));
       }
     }
+    // the id of an existing method spelled with a query or a path: it names no method (either refused with
+    // nothing changed, or everything that belongs to the method goes away together)
+    for variant in [1u8, 2] {
+      v.push(shape(doc, vec![bm(0, 0b00011)], false, vec![Op::Purge { target: Some(0), variant }]));
+      v.push(shape(doc, vec![bm(4, 0)], false, vec![Op::Purge { target: Some(0), variant }]));
+    }
     // absent id; methods that are not backed by the stores (natural KeyIdNotFound from get_key_id)
-    v.push(shape(doc, vec![bm(0, 0b00011)], true, vec![Op::Purge { target: None }]));
-    v.push(shape(doc, vec![], true, vec![Op::Purge { target: Some(0) }])); // x-gp, referenced twice
-    v.push(shape(doc, vec![], true, vec![Op::Purge { target: Some(65535) }])); // x-emb
+    v.push(shape(doc, vec![bm(0, 0b00011)], true, vec![Op::Purge { target: None, variant: 0 }]));
+    v.push(shape(doc, vec![], true, vec![Op::Purge { target: Some(0), variant: 0 }])); // x-gp, referenced twice
+    v.push(shape(doc, vec![], true, vec![Op::Purge { target: Some(65535), variant: 0 }])); // x-emb
   }
   v
 }
@@ -907,10 +935,10 @@ fn alphabet(i: usize) -> Op {
     1 => Op::Generate { frag: Frag::FromKid, scope: 1 },
     2 => Op::Generate { frag: Frag::Given, scope: 4 },
     3 => Op::Generate { frag: Frag::Colliding(0), scope: 0 },
-    4 => Op::Purge { target: Some(0) },
-    5 => Op::Purge { target: Some(20000) },
-    6 => Op::Purge { target: Some(65535) },
-    _ => Op::Purge { target: None },
+    4 => Op::Purge { target: Some(0), variant: 0 },
+    5 => Op::Purge { target: Some(20000), variant: 0 },
+    6 => Op::Purge { target: Some(65535), variant: 0 },
+    _ => Op::Purge { target: None, variant: 0 },
   }
 }
 
@@ -935,8 +963,8 @@ fn op_strategy() -> impl Strategy<Value = Op> {
   ];
   prop_oneof![
     4 => (frag, 0u8..6).prop_map(|(frag, scope)| Op::Generate { frag, scope }),
-    5 => any::<u16>().prop_map(|t| Op::Purge { target: Some(t) }),
-    1 => Just(Op::Purge { target: None }),
+    5 => (any::<u16>(), prop_oneof![6 => Just(0u8), 1 => Just(1u8), 1 => Just(2u8)]).prop_map(|(t, variant)| Op::Purge { target: Some(t), variant }),
+    1 => Just(Op::Purge { target: None, variant: 0 }),
   ]
 }
 
